@@ -122,6 +122,46 @@ Lemma f_exec_tsteps q r l s : exec_tsteps T r l (pre q s) = pre q (exec_tsteps T
 Proof. revert s. induction l as [|a l IH]; simpl; intros; auto. destruct a; autorewrite with fr; auto. Qed.
 Hint Rewrite f_exec_tsteps : fr.
 
+Lemma f_cres q c v s : cres T c v (pre q s) = pre q (cres T c v s).
+Proof. unfold cres. frame. Qed.
+Lemma f_crej q c v s : crej c v (pre q s) = pre q (crej c v s).
+Proof. unfold crej. frame. Qed.
+Hint Rewrite f_cres f_crej : fr.
+
+Lemma f_promise_resolve q x s :
+  promise_resolve T x (pre q s) = (fst (promise_resolve T x s), pre q (snd (promise_resolve T x s))).
+Proof. unfold promise_resolve, new_cap_int. cbv beta iota zeta. destruct x; simpl; autorewrite with fr; reflexivity. Qed.
+Lemma f_new_cap_int q s :
+  new_cap_int (pre q s) = (fst (new_cap_int s), pre q (snd (new_cap_int s))).
+Proof. unfold new_cap_int. cbv beta iota zeta. simpl. autorewrite with fr. reflexivity. Qed.
+
+Lemma f_async_throw q b e s : async_throw T b e (pre q s) = pre q (async_throw T b e s).
+Proof. unfold async_throw. frame. Qed.
+Hint Rewrite f_async_throw : fr.
+
+Lemma f_async_step q b s : async_step T b (pre q s) = pre q (async_step T b s).
+Proof.
+  unfold async_step. destruct (ab_rest b); [destruct (ab_end b); autorewrite with fr; reflexivity|].
+  rewrite f_promise_resolve. destruct (promise_resolve T v s) as [p s1]. cbn [fst snd]. autorewrite with fr. reflexivity.
+Qed.
+Hint Rewrite f_async_step : fr.
+
+Lemma f_exec_finally q sc ful arg cap s : exec_finally T sc ful arg cap (pre q s) = pre q (exec_finally T sc ful arg cap s).
+Proof.
+  unfold exec_finally. cbv beta zeta. autorewrite with fr.
+  set (s1 := fold_left (exec_act T) (s_acts sc) (set_log (log s ++ [(s_id sc, VUndef)]) s)).
+  assert (K : forall v, (let '(np, s0) := promise_resolve T v (pre q s1) in
+                         let '(d, dcap, s2) := new_cap_int s0 in
+                         cres T cap (VProm d) (perform_then np (if ful then HThunkVal arg else HThunkThrow arg) HNone (Some dcap) s2))
+                      = pre q (let '(np, s0) := promise_resolve T v s1 in
+                               let '(d, dcap, s2) := new_cap_int s0 in
+                               cres T cap (VProm d) (perform_then np (if ful then HThunkVal arg else HThunkThrow arg) HNone (Some dcap) s2))).
+  { intros v. rewrite f_promise_resolve. destruct (promise_resolve T v s1) as [np s0]. cbn [fst snd].
+    rewrite f_new_cap_int. destruct (new_cap_int s0) as [[d dcap] s2]. cbn [fst snd]. autorewrite with fr. reflexivity. }
+  destruct (s_ret sc); autorewrite with fr; try reflexivity; apply K.
+Qed.
+Hint Rewrite f_exec_finally : fr.
+
 Lemma f_exec_job q j s : exec_job T j (pre q s) = pre q (exec_job T j s).
 Proof.
   unfold exec_job, new_pair_for, new_cap_int. cbv beta iota zeta. frame.
